@@ -138,8 +138,8 @@ var allowedAstWrites = map[string]map[string]string{
 func c05Ownership(r *an.Run) {
 	r.Rule("R1-ownership-of-writes-to-the-target-AST")
 	match, repl := r.P.Func(engine, "Change.Match"), r.P.Func(engine, "Change.Replace")
-	c1, c2 := r.P.Func(mainP, "cleanupFilePos"), r.P.Func(patchP, "cleanupFilePos")
-	if match == nil || repl == nil || c1 == nil || c2 == nil {
+	cleanups := cleanupFuncs(r)
+	if match == nil || repl == nil || len(cleanups) == 0 {
 		r.Undecided("anchor|Change.Match/Replace/cleanupFilePos", 0, "an anchored function was not found")
 		return
 	}
@@ -155,7 +155,7 @@ func c05Ownership(r *an.Run) {
 	}
 	// replacing: closed inventory
 	seen := map[string]bool{}
-	for _, w := range astWritesIn(sortedFuncs(r.P.ReachableModuleFuncs(repl, c1, c2))) {
+	for _, w := range astWritesIn(sortedFuncs(r.P.ReachableModuleFuncs(append([]*ssa.Function{repl}, cleanups...)...))) {
 		if strings.Contains(an.FuncPkgPath(w.fn), "/internal/pgo") || strings.Contains(an.FuncPkgPath(w.fn), "/internal/goast") || strings.Contains(an.FuncPkgPath(w.fn), "/internal/astdiff") {
 			continue
 		}
